@@ -1026,7 +1026,7 @@ pub(crate) fn add_sequence_n_largest<W, R, T>(
             rt.can_allocate(len0* size_of::<usize>())?;
             let f = to_primitive!(a2, Function);
             let ret = xraise!(seq0.n_largest::<true>(i1, f, ns, rt.clone())?);
-            let ret_seq = XSequence::Array(ret);
+            let ret_seq = XSequence::array(ret);
             Ok(manage_native!(ret_seq, rt))
         }),
     )
@@ -1062,7 +1062,7 @@ pub(crate) fn add_sequence_n_smallest<W, R, T>(
             rt.can_allocate(len0* size_of::<usize>())?;
             let f = to_primitive!(a2, Function);
             let ret = xraise!(seq0.n_largest::<false>(i1, f, ns, rt.clone())?);
-            let ret_seq = XSequence::Array(ret);
+            let ret_seq = XSequence::array(ret);
             Ok(manage_native!(ret_seq, rt))
         }),
     )
